@@ -18,11 +18,13 @@ type gchan struct {
 
 type pendSend struct {
 	v     value
+	seq   int
 	taken bool
 	gone  bool // sender gave up (select chose another case)
 }
 
 type gor struct {
+	lastSendSeq int
 	id    int
 	wake  chan bool // true = run, false = abort
 	done  bool
@@ -161,6 +163,7 @@ func (s *scheduler) exit() {
 }
 
 var deadlockPending bool
+var recvSeq int
 
 func (s *scheduler) spawn(f func()) {
 	g := &gor{id: len(s.gs), wake: make(chan bool, 1), fresh: true}
@@ -237,10 +240,12 @@ func chSend(ch *gchan, v value) {
 	}
 	p := &pendSend{v: v}
 	ch.pend = append(ch.pend, p)
+	me := s.cur
 	s.block(func() bool { return p.taken || ch.closed })
 	if !p.taken {
 		panic(targetPanic{"send on closed channel"})
 	}
+	me.lastSendSeq = p.seq
 }
 
 func livePend(ch *gchan) []*pendSend {
@@ -289,6 +294,8 @@ func chRecv2(ch *gchan, yield bool) (value, bool) {
 		}
 		p := lp[k]
 		p.taken = true
+		recvSeq++
+		p.seq = recvSeq
 		var np []*pendSend
 		for _, q := range ch.pend {
 			if q != p && !q.gone {
